@@ -17,6 +17,7 @@ KIND = {
     "RepulsingHillClimbingOptimizer": ("repulsing", "repulsion_factor"),
     "RandomRestartHillClimbingOptimizer": ("restart", "n_iter_restart"),
     "RandomSearchOptimizer": ("random", None),
+    "RandomAnnealingOptimizer": ("annealing", None),
 }
 LOCAL_OPTIMIZERS = list(KIND)
 
